@@ -127,10 +127,29 @@ func runSort(c *core.Ctx) {
 		var obs []itx.Obs
 		label := "sort:" + shapeClass(p.sizes)
 		c.Risk(label)
-		if !c.Bounded(label, wd, func() { obs = itx.Drain(itx.Feed(p.parts, p.perm).SortBatches()) }) {
+		var arrMu sync.Mutex
+		var arrived []int
+		obiverif.SetEventHook(func(site string, v []int) {
+			if site == "sortbatches.arrival" && len(v) == 1 {
+				arrMu.Lock()
+				arrived = append(arrived, v[0])
+				arrMu.Unlock()
+			}
+		})
+		ok := c.Bounded(label, wd, func() { obs = itx.Drain(itx.Feed(p.parts, p.perm).SortBatches()) })
+		obiverif.SetEventHook(nil)
+		if !ok {
 			return
 		}
 		p.key(c, "sort")
+		// the arrival order observed inside SortBatches (hook) is the fed permutation
+		arrMu.Lock()
+		if fmt.Sprint(arrived) == fmt.Sprint(p.perm) || (len(arrived) == 0 && len(p.perm) == 0) {
+			c.Count("sortbatches_arrival_orders_confirmed_by_hook", 1)
+		} else {
+			c.Inconclusive("the arrival order observed at SortBatches differs from the fed permutation")
+		}
+		arrMu.Unlock()
 		p.sample(c, "SortBatches", obs)
 		for i, o := range obs {
 			if o.Order != i {
